@@ -132,8 +132,12 @@ let run_line line =
     let cow k = k = "b" || k = "o" in
     if kl <> kr && not (cow kl && cow kr) then "NA"
     else
-      let res = if kl = "t" then x_cmp_t (fst (made_t l)) (fst (made_t r)) else x_cmp_g (fst (made_g l)) (fst (made_g r)) in
-      (match res with None -> "NA" | Some c -> (if c = Eq then "EQ " else "NE ") ^ ord_s c)
+      let can rest = match rest with Some ((Some c, _), _) -> h c | _ -> "!" in
+      let (res, cl, cr) =
+        if kl = "t" then let (a, ra) = made_t l and (b, rb) = made_t r in (x_cmp_t a b, can ra, can rb)
+        else let (a, ra) = made_g l and (b, rb) = made_g r in (x_cmp_g a b, can ra, can rb) in
+      (* the two canonical strings follow the verdict: C19's comparison is made only where model and crate speak about the same two values *)
+      (match res with None -> "NA" | Some c -> (if c = Eq then "EQ " else "NE ") ^ ord_s c ^ " | " ^ cl ^ " | " ^ cr)
   | ["Q"; ops] ->
     let (q, outs) = x_qrun (qops ops) in
     Printf.sprintf "%s|%s|%s|%d" (if outs = [] then "-" else String.concat "," (List.map qout outs)) (qs q) (qs (List.rev q)) (List.length q)
